@@ -63,11 +63,5 @@ def run(ctx: RunContext) -> int:
     return conclude(ctx, res, RULE, ASSUME, t0)
 
 
-def replay(ctx: RunContext, body: dict) -> int:
-    try:
-        mgen.replay_history(body["trace"], "C01")
-    except Violation as v:
-        print(f"VIOLATION property=C01 replay={ctx.replay}\n  key={v.key}\n  what={v.what}")
-        return 1
-    print("replay: property held")
-    return 0
+def replay_trace(trace: dict):
+    mgen.replay_history(trace, "C01")
